@@ -348,6 +348,9 @@ pub struct World {
     seen_server_cids: Vec<Vec<u8>>,
     spoof_fresh_done: bool,
     spoof_fresh_t: u64,
+    first_server_cid: Option<Vec<u8>>,
+    first_client_cid: Option<Vec<u8>>,
+    forge2_done: bool,
 }
 
 /// long-header Initial (QUIC v1) whose token is not empty
@@ -529,6 +532,9 @@ impl World {
             seen_server_cids: Vec::new(),
             spoof_fresh_done: false,
             spoof_fresh_t: 0,
+            first_server_cid: None,
+            first_client_cid: None,
+            forge2_done: false,
             p,
         };
         let (cert, key) = load_cert();
@@ -777,6 +783,27 @@ impl World {
                         self.net.push(Pkt { at: self.now + dmin / 2 + 1, seq: self.seq, src: dst, dst: src, ecn: None, data: d, origin: -2, kind: 7 });
                         self.trace.push(vec![9, t, idx as i128, 7, did, sid, sz]);
                         self.trace.push(vec![13, t, 12, sz]);
+                    }
+                }
+            }
+        }
+        if self.p.get(k::RESET_FORGE, 0) == 2 && src_ep == 1 && !data.is_empty() && data[0] & 0x80 == 0 {
+            // the CID the server currently addresses the client with (short header)
+            let cl = self.p.get(k::CID_LEN, 8).max(0) as usize;
+            if cl > 0 && data.len() > 1 + cl {
+                self.first_client_cid = Some(data[1..1 + cl].to_vec());
+            }
+        }
+        if self.p.get(k::RESET_FORGE, 0) == 2 && data.len() > 7 && data[0] & 0x80 != 0 {
+            let dl = data[5] as usize;
+            if 6 + dl < data.len() {
+                let sl = data[6 + dl] as usize;
+                if 7 + dl + sl <= data.len() && sl > 0 {
+                    let scid = data[7 + dl..7 + dl + sl].to_vec();
+                    if src_ep == 1 && self.first_server_cid.is_none() {
+                        self.first_server_cid = Some(scid);
+                    } else if src_ep == 0 && self.first_client_cid.is_none() {
+                        self.first_client_cid = Some(scid);
                     }
                 }
             }
@@ -2006,6 +2033,38 @@ impl World {
                 self.eps[1].conns.clear();
                 self.eps[1].zombies.clear();
                 self.trace.push(vec![13, self.now as i128, 11, 1]);
+            }
+            if self.p.get(k::RESET_FORGE, 0) == 2 && !self.forge2_done && migrated >= 1 {
+                let dmin = self.p.get(k::DELAY_MIN, 10_000) as u64;
+                let at = self.p.get(k::MIGRATE_AT, 0) as u64 + 6 * dmin;
+                if self.now >= at {
+                    self.forge2_done = true;
+                    if let (Some(scid), Some(ccid)) = (self.first_server_cid.clone(), self.first_client_cid.clone()) {
+                        // the token of the server's FIRST connection ID (the one in its transport
+                        // parameters), which the client retired when it switched CIDs at its move
+                        let seed = self.p.get(k::SEED, 1) as u64 ^ 0xABCD;
+                        let mut rk = [0u8; 64];
+                        for (i, b) in rk.iter_mut().enumerate() {
+                            *b = (seed as u8).wrapping_add(i as u8).wrapping_mul(37) ^ 0x5E;
+                        }
+                        let key = ring_hmac(&rk);
+                        let mut sig = [0u8; 32];
+                        quinn_proto::crypto::HmacKey::sign(&key, &scid, &mut sig);
+                        let mut f = vec![0x40 | (self.rng.below(64) as u8)];
+                        f.extend_from_slice(&ccid);
+                        for _ in 0..(25 + self.rng.below(20)) {
+                            f.push(self.rng.below(256) as u8);
+                        }
+                        f.extend_from_slice(&sig[..16]);
+                        let src = self.eps[1].addr;
+                        let dst = self.eps[0].addr;
+                        let (sid, did) = (self.addr_id(src), self.addr_id(dst));
+                        self.seq += 1;
+                        let sz = f.len() as i128;
+                        self.net.push(Pkt { at: self.now + 1000, seq: self.seq, src, dst, ecn: None, data: f, origin: -2, kind: 7 });
+                        self.trace.push(vec![9, self.now as i128, -1, 7, sid, did, sz]);
+                    }
+                }
             }
             let ms_at = self.p.get(k::NEW_MAXSTREAMS_AT, 0);
             if ms_at > 0 && !maxstreams_done && self.now as i128 >= ms_at && self.p.get(k::NEW_MAXSTREAMS_SIDE, 1) == 1 {
